@@ -152,6 +152,15 @@ pub fn make_placeholder_regex(labels: &[&str]) -> Regex {
     .unwrap()
 }
 
+// A width or precision (a run of digits). std::fmt panics on a runtime width or precision above
+// u16::MAX, and a field is padded to its width on every line: larger values are limited to that.
+fn parse_field_size(digits: &str) -> usize {
+    const MAX_FIELD_SIZE: usize = u16::MAX as usize;
+    digits
+        .parse::<usize>()
+        .map_or(MAX_FIELD_SIZE, |n| n.min(MAX_FIELD_SIZE))
+}
+
 // The resulting vector is never empty
 pub fn parse_line_number_format<'a>(
     format_string: &'a str,
@@ -184,16 +193,8 @@ pub fn parse_line_number_format<'a>(
             prefix_len,
             placeholder: captures.get(1).map(|m| m.as_str()).try_into().ok(),
             alignment_spec: captures.get(3).map(|m| m.as_str()).try_into().ok(),
-            width: captures.get(4).map(|m| {
-                m.as_str()
-                    .parse()
-                    .unwrap_or_else(|_| panic!("Invalid width in format string: {}", format_string))
-            }),
-            precision: captures.get(5).map(|m| {
-                m.as_str().parse().unwrap_or_else(|_| {
-                    panic!("Invalid precision in format string: {}", format_string)
-                })
-            }),
+            width: captures.get(4).map(|m| parse_field_size(m.as_str())),
+            precision: captures.get(5).map(|m| parse_field_size(m.as_str())),
             fmt_type: captures
                 .get(6)
                 .map(|m| SmolStr::from(m.as_str()))
